@@ -58,6 +58,13 @@ def run(ctx: Ctx) -> Result:
         st, items, o = run_s(sc)
         if not (st == 'OK' and items[-1] == b'\xff'):
             viol('CHECK_ADAPTER_SIG on an honest adapter', {'script': sc.hex()}, 'true', o)
+        # the adapter scalar is accepted only in its canonical form (F17): bit 255 set, or L added, denote the same point
+        if it % 4 == 0:
+            for what_, sa2 in (('bit 255 of sa set', sa[:31] + bytes([sa[31] | 0x80])), ('sa + L', ((int.from_bytes(sa, 'little') + L) % 2**256).to_bytes(32, 'little'))):
+                sc = chk(sa2, R, m, Tp, X); rec(sc)
+                st, items, o = run_s(sc)
+                if st == 'OK' and items and items[-1] == b'\xff':
+                    viol('CHECK_ADAPTER_SIG with a non-canonical adapter scalar (' + what_ + ')', {'script': sc.hex()}, 'false or an error', o)
         # single-bit corruption of one of the five inputs
         which = rng.randrange(5); vals = [sa, R, m if m else b'\x00', Tp, X]
         v = bytearray(vals[which]); j = rng.randrange(len(v) * 8); v[j // 8] ^= 1 << (j % 8); vals2 = list(vals); vals2[which] = bytes(v)
